@@ -20,26 +20,51 @@ CLAIM = dict(
           "source chip; chips pairwise distinct; every hop a working link of a working chip to the adjacent working "
           "chip modulo the machine size; leaves exactly the sinks with their cores / endpoint route), and a valid tree "
           "physically connects the source chip to every sink chip over working links; (2) every path a_star returns "
-          "starts in `sources`, runs over working links through chips outside `sources` and ends next to the sink; "
-          "(3) copy_and_disconnect_tree keeps only working chips and working links between adjacent chips; (4) every "
-          "hop of a longest-dimension-first walk, and every edge ner_net creates, is the link named by its direction; "
-          "(5) every hop of every tree the model of route() returns (with or without the dead-link repair, any "
-          "processing order of the broken links) follows a working link of a working chip to the adjacent chip, and "
-          "every leaf is an expected sink leaf. NOT proved: chip-distinctness / connectedness after the repair loop, "
-          "completeness of the leaves, and the error clause; these are covered per case by exact stage-wise "
-          "correspondence of the real code with the model (recorded random draws and set orders) and by validTree "
-          "evaluated on every tree the real router returns, the error clause being decided by a Lean strong-"
-          "connectivity computation cross-checked against an independent Python one."),
+          "starts in `sources`, runs over working links through chips outside `sources` and ends next to the sink, "
+          "a_star reports the machine disconnected only if no chip of `sources` reaches the sink over working "
+          "links (aStar_complete), and a_star raises nothing else (aStar_only_disconnected: the search loop and the "
+          "path reconstruction cannot fail), so that on a machine the strong-connectivity oracle accepts - the oracle "
+          "is proved sound for physical reachability - a_star always succeeds (aStar_succeeds); (3) copy_and_disconnect_tree keeps only working chips and working links between "
+          "adjacent chips; (4) every hop of a longest-dimension-first walk, and every edge ner_net creates, is the "
+          "link named by its direction; (5) every hop of every tree the model of route() returns (with or without the "
+          "dead-link repair, any processing order of the broken links) follows a working link of a working chip to "
+          "the adjacent chip, and every leaf is an expected sink leaf; (6) the geometry functions this model "
+          "duplicates (mesh / torus length, minimise_xyz, shortest mesh / torus vector, longest_dimension_first, "
+          "concentric_hexagons, links_between, link tables) are proved EQUAL to the independent C11 model of "
+          "rig/geometry.py, so C11's theorems hold for them: the lengths are graph distances, and the route ner_net "
+          "walks to a destination is a shortest walk that visits no chip twice and, on a mesh, never leaves the "
+          "machine; (7) nerNet_valid in full: on the fault-free machine (mesh or torus, every w,h >= 1 incl. 1xN and "
+          "2xN, every radius, destination order and tape) the forest ner_net builds unfolds to a VALID routing tree "
+          "(all five clauses), ner_net has no error other than an oracle error (it never overwrites a tree node), and "
+          "the model of route() on such a machine never enters the repair, never fails and returns a valid tree "
+          "(routeNet_faultfree); (8) a general lemma: any forest with one entry per chip, one parent per node and a "
+          "rank decreasing along edges unfolds to a tree with pairwise distinct chips covering exactly the chips "
+          "below the root. NOT proved: chip-distinctness / rootedness / completeness of the leaves after the "
+          "dead-link repair loop (avoidDeadLinks_valid), and the error clause when the repair runs (that the repair "
+          "loop around a_star - subtree enumeration, the `Cycle created` assertion - raises nothing, and that a "
+          "strongly connected machine never yields the disconnected-machine error); these are covered per case by exact stage-wise correspondence of the real code with the "
+          "model (recorded random draws and set orders) and by validTree evaluated on every tree the real router "
+          "returns, the error clause being decided by a Lean strong-connectivity computation cross-checked against "
+          "an independent Python one."),
     design="3/C03",
-    note=("PARTIAL: nerNet_valid, avoidDeadLinks_valid (one parent per node / no cycle), aStar_complete and "
-          "route_only_failure of DESIGN 3/C03 are not proved; the proved parts are named ..._partial with the full "
-          "statement in a comment. Link/route tables are regenerated from rig/links.py and "
-          "routing_table/entries.py on every run. Stub branches (childless non-sink nodes) left behind by the repair "
-          "are observed on the real code and are not treated as a violation."),
+    note=("PARTIAL: avoidDeadLinks_valid (one parent per node / no cycle after the repair) and route_only_failure "
+          "for machines with faults are not proved (route_only_failure is proved for the fault-free machine: "
+          "routeNet_faultfree; aStar_complete and aStar_only_disconnected are proved for every machine). nerNet_valid is proved in full, using the C11 theorems through Props/Cross03_11.lean; the earlier "
+          "parts named ..._partial are kept. `fault-free` for a net routed without wrap-around allows exactly the "
+          "links that leave the w x h rectangle to be dead. The oracle tape of the model is arbitrary in the "
+          "theorems (tape / badDraw errors = the tape handed in is not a recording of a real run). Link/route tables "
+          "are regenerated from rig/links.py and routing_table/entries.py on every run. Stub branches (childless "
+          "non-sink nodes) left behind by the repair are observed on the real code and are not treated as a "
+          "violation."),
     technique="Lean 4 theorems over a hand-written model + differential correspondence + Lean spec as oracle")
 
 THEOREMS = ["link_tables", "validTree_iff", "validTree_connects", "aStar_path", "copyAndDisconnect_live",
-            "walk_hops", "ldf_hops", "nerNet_edges_partial", "routeNet_repaired_live", "routeNet_tree_partial"]
+            "walk_hops", "ldf_hops", "nerNet_edges_partial", "routeNet_repaired_live", "routeNet_tree_partial",
+            # round 2: cross-model consistency with C11 and what it buys
+            "cross_link_tables", "cross_lengths", "cross_torusPath", "cross_ldf", "cross_hexagons",
+            "cross_linksBetween", "meshLen_is_distance", "torusLen_is_distance", "hexagons_exact", "torus_route",
+            "mesh_route", "forest_unfolds", "nerNet_valid", "nerNet_only_oracle_errors", "routeNet_faultfree",
+            "aStar_complete", "aStar_only_disconnected", "stronglyConnected_sound", "aStar_succeeds"]
 
 RULE = ("machines 1x1..12x12 (incl. 1xN, 2xN), torus / mesh / partly wrapped, 0-30% dead directed links (half of them "
         "dead in one direction only), dead chips; one net per case with fan-out 0-12, sinks on the source chip, "
@@ -546,7 +571,8 @@ def run(ctx):
         "vertices of a net are placed on working chips, core allocations are non-empty slices within 0..18, endpoint "
         "routes are members of Routes (what place()/allocate() and the constraint classes produce)",
         "one net per call is checked (route() treats nets independently)",
-        "the repair loop and whole-net validity are validated per case by the Lean oracle, not proved"]
+        "whole-net validity is proved for the fault-free machine (nerNet_valid, routeNet_faultfree); the repair loop "
+        "and whole-net validity on machines with faults are validated per case by the Lean oracle, not proved"]
     cdir = os.path.join(os.path.dirname(os.path.dirname(os.path.abspath(__file__))), "corpus", "C03")
     if os.path.isdir(cdir):
         corpus = [json.load(open(os.path.join(cdir, f)))["case"] for f in sorted(os.listdir(cdir)) if f.endswith(".json")]
